@@ -223,6 +223,10 @@ func vQuietLoggers() {
 	}
 	l := zap.New(vFatalCore{core}, zap.WithFatalHook(zapcore.WriteThenPanic)).Sugar()
 	logger.BessLog, logger.DockerLog, logger.InitLog, logger.P4Log, logger.PfcpLog = l, l, l, l, l
+	// the bess plug-in gives its per-request goroutines one second of REAL time (GRPCJoin) and then answers anyway: under
+	// load, or in a worker that has been running for minutes with a large heap, a stall of that length makes a request look
+	// accepted while its entries are not installed yet. Wall-clock time-outs must never decide anything here.
+	Timeout = 30 * time.Minute
 }
 
 // vFatalCore lets Fatal-level entries through a no-op core so that the fatal hook runs.
